@@ -348,12 +348,39 @@ package circuitbreaker
 
 // ---- C13: whole-set load. The grouping loop must cope with any element, including nil; the rebuild itself
 // (onRuleUpdate) is under a separate contract.
-//@ func onRuleUpdate(rawResRulesMap) err
-//@   requires[holds-the-update-lock]{C15} wlockcount(updateRuleMux) > 0
+//@ func LogRuleUpdate(m)
 //@   assumed
-//@   modifies heap
+//@   panics never
+//@   modifies nothing
+//@ spec func allValidLists(m) = (forall r Str :: has(m, r) ==> allocated(base(m[r]))) && (forall r Str :: forall k Int :: has(m, r) && 0 <= k && k < len(m[r]) ==> validRule(m[r][k]))
+//@ func onRuleUpdate(rawResRulesMap) err
+//@   props C13, C15
+//@   requires[holds-the-update-lock]{C15} wlockcount(updateRuleMux) > 0
+//@   requires breakers != nil && breakerRules != nil
+//@   ensures[raw-recorded] err == nil ==> currentRules == rawResRulesMap
+//@   ensures[new-tables-swapped-in] err == nil ==> breakers != nil && fresh(breakers) && breakerRules != nil && fresh(breakerRules)
+//@   ensures[only-valid-rules-enforced] err == nil ==> allValidLists(breakerRules)
+//@   modifies breakers, breakerRules, currentRules
+//@   loop 1:
+//@     invariant[valid-map-is-new] validResRulesMap != nil && fresh(validResRulesMap) && allValidLists(validResRulesMap)
+//@     invariant[nothing-else-written] frame()
+//@   loop 2:
+//@     invariant[valid-map-is-new] validResRulesMap != nil && fresh(validResRulesMap) && allValidLists(validResRulesMap)
+//@     invariant[valid-list-is-new] (cap(validResRules) == 0 || fresh(base(validResRules))) && (forall k Int :: 0 <= k && k < len(validResRules) ==> validRule(validResRules[k]))
+//@     invariant[valid-list-is-not-in-the-map-yet] forall r Str :: has(validResRulesMap, r) ==> base(validResRulesMap[r]) != base(validResRules)
+//@     invariant[nothing-else-written] frame()
+//@   loop 3:
+//@     invariant[clone-is-new] breakersClone != nil && fresh(breakersClone) && (forall r Str :: has(breakersClone, r) ==> fresh(base(breakersClone[r])))
+//@     invariant[valid-lists] allValidLists(validResRulesMap)
+//@     invariant[nothing-else-written] frame()
+//@   loop 4:
+//@     invariant[new-table] newBreakers != nil && fresh(newBreakers)
+//@     invariant[clone-lists-are-private] forall r Str :: has(breakersClone, r) ==> fresh(base(breakersClone[r]))
+//@     invariant[valid-lists] allValidLists(validResRulesMap)
+//@     invariant[nothing-else-written] frame()
 //@ func LoadRules(rules) (changed, err)
 //@   props C13
+//@   objinv breakers != nil && breakerRules != nil
 //@   panics never
 //@   sets gCbLoadN = old(gCbLoadN) + 1
 //@   sets gCbLoadArg = rules
